@@ -203,6 +203,10 @@ func buildCall(gen string, r *schema.Resource, m *schema.Method, pos string, val
 			c.BatchKeys[0] = val
 			c.BatchKeys[1] = otherKey(ownKey, val)
 		}
+		if pos == "batch-size" {
+			// (no key at all is a call like any other: it reaches the resource, which may have its own opinion)
+			c.BatchKeys = c.BatchKeys[:map[string]int{"none": 0, "one": 1, "two": 2}[val.S]]
+		}
 		for i, k := range c.BatchKeys {
 			e := &BatchEntry{K: k, Has: map[string]bool{"results": true}, Status: 204}
 			if m.Name == "batch_get" {
@@ -232,6 +236,9 @@ func buildCall(gen string, r *schema.Resource, m *schema.Method, pos string, val
 		if pos == "batch-key" {
 			ks[0] = val
 			ks[1] = otherKey(ownKey, val)
+		}
+		if pos == "batch-size" {
+			ks = ks[:map[string]int{"none": 0, "one": 1, "two": 2}[val.S]]
 		}
 		for i, k := range ks {
 			kv := KV{K: k}
@@ -281,6 +288,14 @@ func canonicalQuery(w *World) (kind, detail string) {
 }
 
 // patchShapes: patches that mix sections ($set with $delete, several of each), as alphabet of the patch-shape position.
+func batchSizes() []*schema.V {
+	var out []*schema.V
+	for _, n := range []string{"two", "none", "one"} { // (the first element stands for the default call)
+		out = append(out, schema.VS(schema.P(schema.String), n).D("keys:%s", n))
+	}
+	return out
+}
+
 func patchShapes() []*schema.V {
 	var out []*schema.V
 	for _, n := range []string{"set", "delete", "set+delete", "delete+set-later-field", "two-sets+two-deletes"} {
@@ -360,13 +375,13 @@ func positions(gen string, r *schema.Resource, m *schema.Method, full bool) []ar
 		ps = append(ps, argPos{"patch-set", schema.Alphabet(r.Schema.AllFields()[1].Type, true)})
 		ps = append(ps, argPos{"patch-shape", patchShapes()})
 	case m.Name == "batch_get" || m.Name == "batch_delete":
-		ps = append(ps, argPos{"batch-key", keyAlphabet(ownKey, true)})
+		ps = append(ps, argPos{"batch-key", keyAlphabet(ownKey, true)}, argPos{"batch-size", batchSizes()})
 	case m.Name == "batch_create":
 		ps = append(ps, argPos{"entity", schema.Alphabet(r.Schema, true)}, argPos{"created-id", keyAlphabet(ownKey, true)})
 	case m.Name == "batch_update":
-		ps = append(ps, argPos{"batch-key", keyAlphabet(ownKey, true)}, argPos{"entity", schema.Alphabet(r.Schema, true)})
+		ps = append(ps, argPos{"batch-key", keyAlphabet(ownKey, true)}, argPos{"entity", schema.Alphabet(r.Schema, true)}, argPos{"batch-size", batchSizes()})
 	case m.Name == "batch_partial_update":
-		ps = append(ps, argPos{"batch-key", keyAlphabet(ownKey, true)}, argPos{"patch-shape", patchShapes()})
+		ps = append(ps, argPos{"batch-key", keyAlphabet(ownKey, true)}, argPos{"patch-shape", patchShapes()}, argPos{"batch-size", batchSizes()})
 	}
 	return ps
 }
